@@ -434,6 +434,8 @@ func main() {
 			} else if sig, detail = judgeFrostPair(k, msgs, seed, rp.Mode, rp.A, rp.A, &r1, &r2); sig != "" {
 				sig += "|start-function-reused"
 			}
+		case "frost-long":
+			sig, detail = longRunning(k, msgs, seed, rp.A, 2100)
 		case "frost-self":
 			c, err := attempt(k, msgs, rp.A, reader(rp.Mode, seed, rp.A.String(), 0))
 			fmt.Printf("replay frost-self mode=%s A: %s -> %+v %v\n", rp.Mode, rp.A, c, err)
@@ -551,6 +553,25 @@ func main() {
 	res.Extra["frost_handler_starts"] = starts
 	res.Extra["frost_context_pairs_compared"] = pairs
 
+	// ---- a long-running signer ------------------------------------------------------------------------
+	// One process makes the SAME signing attempt (share, signers, session id, message) 2100 times, each
+	// under its own honest stream: every attempt must publish commitments nobody published before.
+	// (Anything process-wide between the random source and the nonce - a pool, a cache, a counter -
+	// shows only after many requests; 2100 covers pages of up to 64 KiB served 32 bytes at a time.)
+	if vkit.ShardI() == 0 {
+		for _, v := range []string{"frost", "taproot"} {
+			c := Ctx{Msg: 0, Session: "1", Signers: "ab", Variant: v, Share: 0}
+			sig, detail := longRunning(k, msgs, seed, c, 2100)
+			if sig == "harness" {
+				res.Hard(detail)
+			} else if sig != "" {
+				res.Violate(sig, detail, replay{Kind: "frost-long", Mode: "honest", A: c})
+			}
+			res.Case("long-running|" + v)
+			res.Extra["long_running_attempts_"+v] = 2100
+		}
+	}
+
 	// ---- stand-alone BIP-340 ---------------------------------------------------------------------------
 	sp, sc := standalone(res, seed)
 	res.Extra["bip340_sign_calls"] = sc
@@ -559,6 +580,25 @@ func main() {
 	fmt.Fprintf(os.Stderr, "C11: %d frost contexts (%d main), %d handler starts, %d frost pairs, %d bip340 pairs, %d violation signatures\n",
 		len(ctxs), nMain, starts, pairs, sp, len(res.Violations))
 	res.Finish()
+}
+
+// longRunning makes the same signing attempt n times in this process, each under its own honest stream.
+func longRunning(k *keys, msgs [][]byte, seed int64, c Ctx, n int) (sig, detail string) {
+	seen := map[string]int{}
+	for i := 0; i < n; i++ {
+		r, err := attempt(k, msgs, c, reader("honest", seed, c.String()+"|long-running", 100+i))
+		if err != nil {
+			return "harness", fmt.Sprintf("long-running signer, attempt %d: %v", i+1, err)
+		}
+		for _, x := range []string{r.D, r.E} {
+			if j, ok := seen[x]; ok {
+				return fmt.Sprintf("nonce-reuse|%s|same-context-honest-rng|long-running-signer", c.Variant),
+					fmt.Sprintf("%s, context %s, every attempt under its own honest random stream: attempt %d publishes a commitment that attempt %d had published (x = %s…)", c.Variant, c, i+1, j, x[:16])
+			}
+		}
+		seen[r.D], seen[r.E] = i+1, i+1
+	}
+	return "", ""
 }
 
 // ---- stand-alone taproot.SecretKey.Sign --------------------------------------------------------------
